@@ -64,6 +64,41 @@ def routes(text, tmpdir, tag, bom, crlf=False):
                 return run
             extra.append((f'PyDBML(file:{enc})', True, with_enc(lambda fh, **kw: PyDBML(fh, **kw))))
             extra.append((f'parse_file(file:{enc})', False, with_enc(lambda fh, **kw: PyDBML.parse_file(fh))))
+    if not bom and not crlf:
+        # an open text stream that cannot seek (a pipe): still an open text file whose read() gives the text
+        def with_pipe(fn):
+            def run(**kw):
+                import threading
+                r_, w_ = os.pipe()
+
+                def feed():
+                    with os.fdopen(w_, 'w', encoding='utf8', newline='') as wf:
+                        wf.write(text)
+                th = threading.Thread(target=feed)
+                th.start()
+                try:
+                    with os.fdopen(r_, 'r', encoding='utf8', newline='') as rf:
+                        return fn(rf, **kw)
+                finally:
+                    th.join(10)
+            return run
+        extra.append(('PyDBML(file:pipe)', True, with_pipe(lambda fh, **kw: PyDBML(fh, **kw))))
+        extra.append(('parse_file(file:pipe)', False, with_pipe(lambda fh, **kw: PyDBML.parse_file(fh))))
+        # options passed by position (documented order: source, allow_properties, sql_renderer, dbml_renderer)
+        def positional(call):
+            def run(**kw):
+                if not kw:
+                    return call()
+                from pydbml.renderer.sql.default import DefaultSQLRenderer
+                from pydbml.renderer.dbml.default import DefaultDBMLRenderer
+                args = [kw.get('allow_properties', False)]
+                if 'sql_renderer' in kw:
+                    args += [kw['sql_renderer'], kw.get('dbml_renderer', DefaultDBMLRenderer)]
+                return call(*args)
+            return run
+        extra.append(('PyDBML(str)', True, positional(lambda *a: PyDBML(s, *a))))
+        extra.append(('PyDBML.parse', True, positional(lambda *a: PyDBML.parse(s, *a))))
+        extra.append(('PyDBML().parse', True, positional(lambda *a: PyDBML().parse(s, *a))))
     return extra + [
         ('PyDBML(str)', True, lambda **kw: PyDBML(s, **kw)),
         ('PyDBML(Path)', True, lambda **kw: PyDBML(Path(p), **kw)),
@@ -193,6 +228,35 @@ def run_shard(spec, tier, seed, budget_s):
                             if 'sql_renderer' in kw and (db.sql_renderer is not RecSQL or db.dbml_renderer is not RecDBML
                                                          or not db.sql.startswith('-- recorded') or not db.dbml.startswith('// recorded')):
                                 sh.violation('option', f'option-lost:renderers:{name}', f'{name}: renderer classes not in effect', case)
+            # ---- two byte order marks: only the first one is a mark, and every route agrees on that
+            if not sh.out_of_time():
+                dbl = '\ufeff\ufeff' + text
+                want_d, _ = outcome(lambda **kw: PyDBML.parse(dbl), {})
+                for name, takes, thunk in routes(dbl, tmpdir, f'dbl{k}', False):
+                    if ':' in name:
+                        continue
+                    got_d, _ = outcome(thunk, {})
+                    sh.count('obs.double_bom_routes')
+                    if got_d != want_d:
+                        sh.violation('route', f'route-differs:{name}:double-bom', f'{name}: text starting with two U+FEFF: {got_d[:2] if got_d[0] != "OK" else "OK"} vs PyDBML.parse {want_d[:2] if want_d[0] != "OK" else "OK"}',
+                                     {'kind': 'route', 'text': dbl, 'route': name, 'bom': False, 'options': 'default'})
+            # ---- an open file the caller has already read from: every open-file route parses what is left
+            nl = text.find('\n', len(text) // 3)
+            if nl > 0 and not sh.out_of_time():
+                pth2 = os.path.join(tmpdir, f'part{k}.dbml')
+                with open(pth2, 'w', encoding='utf8', newline='') as f:
+                    f.write(text)
+                rest = text[nl + 1:]
+                want_rest, _ = outcome(lambda **kw: PyDBML.parse(rest), {})
+                for name, fn in (('PyDBML(file)', lambda fh: PyDBML(fh)), ('parse_file(file)', lambda fh: PyDBML.parse_file(fh)),
+                                 ('PyDBML().parse_file(file)', lambda fh: PyDBML().parse_file(fh))):
+                    with open(pth2, encoding='utf8', newline='') as fh:
+                        head_ = fh.read(nl + 1)
+                        got_rest, _ = outcome(lambda **kw: fn(fh), {})
+                    sh.count('obs.partially_read_files')
+                    if head_ == text[:nl + 1] and got_rest != want_rest:
+                        sh.violation('route', f'partially-read-file:{name}', f'{name}: a handle positioned after the first {nl + 1} characters does not give the database of the remaining text',
+                                     {'kind': 'partial', 'text': text, 'route': name, 'offset': nl + 1})
             # ---- the file changes between two calls (same path, same size, same time stamp): the second call reads it again
             m_ = None
             for m_ in re.finditer(r'\d', text):
